@@ -424,6 +424,11 @@ def symbolic_table(module, expr, _depth=0):
         return None
     if isinstance(expr, ast.Name) and expr.id in module.consts:
         return symbolic_table(module, module.consts[expr.id], _depth + 1)
+    if isinstance(expr, ast.Attribute) and isinstance(expr.value, ast.Name):
+        # a class-level table read as self.T / cls.T / Class.T (the only class of the module that defines T, or the named one)
+        owners = [k for k in module.classes.values() if expr.attr in k.consts and (expr.value.id in ('self', 'cls') or expr.value.id == k.name)]
+        if len(owners) == 1:
+            return symbolic_table(module, owners[0].consts[expr.attr], _depth + 1)
     if isinstance(expr, ast.Dict) and all(k is not None for k in expr.keys):
         return list(zip(expr.keys, expr.values))
 
